@@ -68,7 +68,7 @@ def rand_elem_bytes(rng, es: int) -> bytes:
     return bytes(rng.randrange(256) for _ in range(es))
 
 
-LAYOUTS = ["contig", "transposed", "strided", "offset", "broadcast", "fortran"]
+LAYOUTS = ["contig", "transposed", "strided", "offset", "broadcast", "fortran", "channels_last"]
 
 
 def apply_layout(t: torch.Tensor, layout: str) -> torch.Tensor:
@@ -79,6 +79,12 @@ def apply_layout(t: torch.Tensor, layout: str) -> torch.Tensor:
         return t.transpose(0, 1).contiguous().transpose(0, 1)
     if layout == "fortran" and t.dim() >= 2:
         return t.permute(*reversed(range(t.dim()))).contiguous().permute(*reversed(range(t.dim())))
+    if layout == "channels_last":
+        if t.dim() == 4:
+            return t.contiguous(memory_format=torch.channels_last)
+        if t.dim() == 5:
+            return t.contiguous(memory_format=torch.channels_last_3d)
+        return t
     if layout == "strided":
         big = torch.zeros([t.shape[0] * 2] + list(t.shape[1:]), dtype=t.dtype)
         big[::2] = t
@@ -94,7 +100,7 @@ def apply_layout(t: torch.Tensor, layout: str) -> torch.Tensor:
 
 
 def rand_shape(rng, max_elems: int = 24) -> List[int]:
-    nd = rng.choice([0, 1, 1, 2, 2, 3, 4])
+    nd = rng.choice([0, 1, 1, 2, 2, 3, 4, 4, 5])
     for _ in range(20):
         shape = [rng.choice([0, 1, 1, 2, 3, 4, 5, 7]) for _ in range(nd)]
         if numel(shape) <= max_elems:
